@@ -7,6 +7,7 @@
 #pragma once
 
 #include <pika/config.hpp>
+#include <pika/config/verif_hooks.hpp>
 #include <pika/allocator_support/internal_allocator.hpp>
 #include <pika/assert.hpp>
 #include <pika/concurrency/cache_line_data.hpp>
@@ -86,6 +87,7 @@ namespace pika::threads::detail {
             task_description task;
             while (add_count-- && addfrom->new_task_items_.pop(task, stealing))
             {
+                PIKA_VERIF_POINT(::pika::verif::tq_add_new, this, addfrom != this ? 1 : 0, 0);
                 // create the new thread
                 threads::detail::thread_init_data& data = task;
                 threads::detail::thread_id_ref_type tid;
@@ -222,6 +224,7 @@ namespace pika::threads::detail {
 
             // do not execute the work, but register a task description for
             // later thread creation
+            PIKA_VERIF_POINT(::pika::verif::tq_stage, this, 0, 0);
             ++new_tasks_count_.data_;
 
             new_task_items_.push(task_description(std::move(data)));
@@ -244,6 +247,7 @@ namespace pika::threads::detail {
             if (0 != work_items_count_count && work_items_.pop(thrd, other_end))
             {
                 --work_items_count_.data_;
+                PIKA_VERIF_POINT(::pika::verif::tq_get_next, threads::detail::get_thread_id_data(thrd), other_end ? 1 : 0, 0);
                 ::pika::detail::tqmc_deb.debug(debug::detail::str<>("get_next_thread"), "stealing",
                     other_end, "D", debug::detail::dec<2>(holder_->domain_index_), "Q",
                     debug::detail::dec<3>(queue_index_), "n",
@@ -268,6 +272,7 @@ namespace pika::threads::detail {
         /// Schedule the passed thread (put it on the ready work queue)
         void schedule_work(threads::detail::thread_id_ref_type thrd, bool other_end)
         {
+            PIKA_VERIF_POINT(::pika::verif::tq_schedule, threads::detail::get_thread_id_data(thrd), other_end ? 1 : 0, 0);
             ++work_items_count_.data_;
             ::pika::detail::tqmc_deb.debug(debug::detail::str<>("schedule_work"), "stealing",
                 other_end, "D", debug::detail::dec<2>(holder_->domain_index_), "Q",
